@@ -64,6 +64,7 @@ type pubKey interface {
 type privKey interface {
 	Pack([]byte)
 	DecapsulateTo(ss, ct []byte)
+	Public() kem.PublicKey
 }
 
 type impl struct {
